@@ -303,7 +303,7 @@ def rule_isolate(ctx):
 
 # 'its BLOB settings are discarded' / 'a peer that reconnects starts from default settings' are decided by the router rules
 # what a dead connection leaves unfinished must not reach the others: one receive buffer per connection
-IMPORTS = [('C05', 'C05.FORGET'), ('C05', 'C05.DEFAULT'), ('C02', 'C02.OWN')]
+IMPORTS = [('C05', 'C05.FORGET'), ('C05', 'C05.DEFAULT'), ('C02', 'C02.OWN'), ('C19', 'C19.NONBLOCK')]  # C19.NONBLOCK: a failed or slow peer's delivery entry neither blocks nor raises into the fan-out to the others
 
 RULES = [
     ("C18.REG", rule_reg, "connection handlers register on construction; constructed only by their transport"),
